@@ -43,13 +43,24 @@ func c15Logf(f *os.File, format string, a ...interface{}) {
 
 // c15Sched implements the part of wasp.Writer that SchedulePublishes uses.
 type c15Sched struct {
-	log    messages.Log
-	out    *os.File
-	onHand func(offset uint64)
-	killIn int64
+	log     messages.Log
+	out     *os.File
+	onHand  func(offset uint64)
+	killIn  int64
+	stallAt int64
 }
 
 func (w *c15Sched) Schedule(ctx context.Context, offset uint64) {
+	if w.stallAt >= 0 && int64(offset) == w.stallAt {
+		// like the real writer with a full queue: block, but give up if the caller's context ends
+		c15Logf(w.out, "W stall %d", offset)
+		select {
+		case <-time.After(900 * time.Millisecond):
+		case <-ctx.Done():
+			c15Logf(w.out, "W gave-up %d", offset)
+			return
+		}
+	}
 	if w.killIn >= 0 && int64(offset) == w.killIn {
 		// die inside the callback, before the hand-over is recorded
 		c15Logf(w.out, "K inCallback %d", offset)
@@ -114,7 +125,10 @@ func c15Child(args []string) int {
 	total := end + uint64(appendBefore) + uint64(appendDuring)
 	ctx, cancel := context.WithCancel(wasp.StoreLogger(context.Background(), zap.NewNop()))
 	handed := 0
-	sched := &c15Sched{log: log, out: out, killIn: -1}
+	sched := &c15Sched{log: log, out: out, killIn: -1, stallAt: -1}
+	if killPoint == "stall" {
+		sched.stallAt = killOffset
+	}
 	if killPoint == "inCallback" {
 		sched.killIn = killOffset
 	}
@@ -328,6 +342,8 @@ func c15Scenario(c *fw.Ctx, idx int, rounds []c15Round) {
 		if killed {
 			c.Observe("kills_at_"+strings.Fields(run.killed + " ?")[0], 1)
 			c.ObserveDistinct("crash_points", run.killed)
+		} else if r.killPoint == "stall" {
+			c.Observe("scheduler_stalls", 1)
 		} else if r.killPoint != "" {
 			c.Observe("kill_points_not_reached", 1)
 		}
@@ -420,6 +436,10 @@ func runC15(c *fw.Ctx) {
 	// a consumer started on an empty log and stopped cleanly before the first message exists
 	scen = append(scen, []c15Round{{}, {appendBefore: 3, stopAfter: 2}, {}, {appendBefore: 2, final: true}})
 	scen = append(scen, []c15Round{{}, {}, {appendBefore: 12, killPoint: "afterCallback", killOffset: 0}, {final: true}})
+	// the scheduler stalls for 0.9 s at one offset (a writer whose queue is full): the consumer must wait
+	// for it, not move on
+	scen = append(scen, []c15Round{{appendBefore: 40, killPoint: "stall", killOffset: 12}, {final: true}})
+	scen = append(scen, []c15Round{{appendBefore: 25, killPoint: "stall", killOffset: 20, stopAfter: 23}, {appendBefore: 5, final: true}})
 	// graceful stops and appends between/concurrently
 	scen = append(scen, []c15Round{{appendBefore: 12, stopAfter: 5}, {appendBefore: 10, stopAfter: 7}, {appendDuring: 25, stopAfter: 20}, {final: true}})
 	scen = append(scen, []c15Round{{appendBefore: 1, stopAfter: 1}, {appendBefore: 1, stopAfter: 1}, {appendBefore: 3, killPoint: "afterCallback", killOffset: 3}, {final: true}})
